@@ -34,7 +34,7 @@ def disambiguate_predictor_column_identifier(identifier, predictor):
     """Removes integration name from column if it's present, adds table path if it's absent"""
     table_ref = predictor.alias.parts_to_str() if predictor.alias else predictor.parts_to_str()
     parts = list(identifier.parts)
-    if parts[0] == table_ref:
+    if len(parts) > 1 and parts[0] == table_ref:
         parts = parts[1:]
 
     new_identifier = Identifier(parts=parts)
